@@ -543,20 +543,16 @@ impl QueryRouter {
 
                 // Likely a read-only query
                 Query(query) => {
-                    if primary_set_based_on_activity {
-                        // If we already set the role based on activity, we don't need to do it again
-                        continue;
-                    }
+                    // The shard of a sharding key does not depend on which role serves the query.
+                    if !primary_set_based_on_activity
+                        && self.pool_settings.db_activity_based_routing
+                        && self.query_handles_tables_in_mutation_cache(query)
+                    {
+                        // The tables in the query have been written to recently
+                        debug!("Query handles tables in mutation cache, going to primary");
 
-                    if self.pool_settings.db_activity_based_routing {
-                        // Check if the tables in the query have been written to recently
-                        if self.query_handles_tables_in_mutation_cache(query) {
-                            debug!("Query handles tables in mutation cache, going to primary");
-
-                            self.active_role = Some(Role::Primary);
-                            primary_set_based_on_activity = true;
-                            continue;
-                        }
+                        self.active_role = Some(Role::Primary);
+                        primary_set_based_on_activity = true;
                     }
 
                     match &self.pool_settings.automatic_sharding_key {
@@ -572,6 +568,11 @@ impl QueryRouter {
 
                         None => (),
                     };
+
+                    if primary_set_based_on_activity {
+                        // The role has been decided by the database activity.
+                        continue;
+                    }
 
                     if Self::query_needs_primary(query) {
                         // Not a plain read after all; later reads in the same message must
